@@ -384,7 +384,7 @@ _definitions = {
                     "var_keyword": None,
                 },
             },
-            "docstring": {"type": "string"},
+            "docstring": {"$ref": "#/definitions/ConstantString"},
             "type": {
                 "type": "string",
                 "enum": ["GENERATOR", "COROUTINE", "ASYNC_GENERATOR"],
@@ -438,7 +438,7 @@ _definitions = {
                     "items": {"$ref": "#/definitions/Instruction"},
                 },
             },
-            "filename": {"type": "string"},
+            "filename": {"$ref": "#/definitions/ConstantString"},
             "first_line_number": {"type": "integer"},
             "name": {"type": "string"},
             "stacksize": {"type": "integer"},
